@@ -29,7 +29,11 @@ func init() {
 		g.unsyncd = false
 		return true
 	}
-	extraGen["orgd"] = func(g *gen, label string, s *Step) bool { return true }
+	extraGen["orgd"] = func(g *gen, label string, s *Step) bool {
+		s.Flag = drawInt(g, label+"viaopts", 0, 2) == 0
+		s.N = drawInt(g, label+"pos", 0, 1)
+		return true
+	}
 	extraGen["ratchet"] = func(g *gen, label string, s *Step) bool {
 		cur := int(g.fmv())
 		tgt := cur + drawInt(g, label+"d", -1, 6)
@@ -78,6 +82,9 @@ func stepCrashRestart(r *Runner, s Step) error {
 	cr.mem = img
 	cr.mu.Unlock()
 	r.FS = errorfs.Wrap(img, errorfs.InjectorFunc(cr.inject))
+	if r.Plan.Sched != nil {
+		r.FS = newSchedFS(r.FS, r.Plan.Sched)
+	}
 	cr.off.Store(false)
 	where := fmt.Sprintf("crash-and-continue at FS op #%d, survival mode %d (%d of %d unsynced items kept)", idx, s.N, cnt[1], cnt[0])
 	if err := r.Open(); err != nil {
@@ -125,7 +132,24 @@ func stepORGD(r *Runner, s Step) error {
 		return nil
 	}
 	r.Wait()
-	it, err := r.DB.NewIter(&pebble.IterOptions{OnlyReadGuaranteedDurable: true, KeyTypes: pebble.IterKeyTypePointsAndRanges})
+	var it *pebble.Iterator
+	var err error
+	if s.Flag {
+		// an ordinary iterator, positioned, then switched to durable-only reads
+		// through SetOptions: it must then behave like a fresh durable iterator.
+		it, err = r.DB.NewIter(&pebble.IterOptions{KeyTypes: pebble.IterKeyTypePointsAndRanges})
+		if err == nil {
+			if s.N%2 == 0 {
+				it.First()
+			} else {
+				it.Last()
+			}
+			it.SetOptions(&pebble.IterOptions{OnlyReadGuaranteedDurable: true, KeyTypes: pebble.IterKeyTypePointsAndRanges})
+			r.C["orgd-via-setoptions"]++
+		}
+	} else {
+		it, err = r.DB.NewIter(&pebble.IterOptions{OnlyReadGuaranteedDurable: true, KeyTypes: pebble.IterKeyTypePointsAndRanges})
+	}
 	if err != nil {
 		return fmt.Errorf("NewIter(OnlyReadGuaranteedDurable): %v", err)
 	}
@@ -255,7 +279,34 @@ func stepCheckpoint(r *Runner, s Step) error {
 	if err != nil {
 		return fmt.Errorf("opening the checkpoint fails: %v", err)
 	}
-	got, err := DumpState(cdb)
+	var got *State
+	if len(s.Spans) == 0 {
+		got, err = DumpState(cdb)
+	} else {
+		// Outside the restricted spans the checkpoint holds whatever the copied
+		// tables happen to contain (possibly fragments cut at table boundaries):
+		// only the spans are read, each through a bounded iterator.
+		got = NewState()
+		for _, sp := range s.Spans {
+			var it *pebble.Iterator
+			it, err = cdb.NewIter(&pebble.IterOptions{KeyTypes: pebble.IterKeyTypePointsAndRanges, LowerBound: []byte(sp[0]), UpperBound: []byte(sp[1])})
+			if err != nil {
+				break
+			}
+			var part *State
+			if part, err = DumpIter(it); err != nil {
+				break
+			}
+			for k, v := range part.Points {
+				got.Points[k] = v
+			}
+			for i := range part.RK {
+				if len(part.RK[i]) > 0 {
+					got.RK[i] = part.RK[i]
+				}
+			}
+		}
+	}
 	cerr := cdb.Close()
 	if err != nil {
 		return fmt.Errorf("reading the checkpoint fails: %v", err)
